@@ -66,6 +66,20 @@ claimed["C07"] = dict(
    ref="DESIGN.md 5/C07, engine E2",
    technique="static must-pass-through and dataflow-wiring rules on go/ssa (custom analyzer)")
 
+claimed["C10"] = dict(
+   text="A who-may-insert analysis of the leaf indexes (found by type) decides for all paths that a key enters an index only as an API leaf-hash parameter, as an "
+        "update of an entry a dominating lookup of the same key found, from a serialised stream, or under a flag set only at target positions — so internal-node "
+        "hashes cannot be reported as leaves — and that every success path of both Modify implementations removes every deleted hash from the index. Positions "
+        "returned and GetHash results are not decided.",
+   ref="DESIGN.md 5/C10, engine E5",
+   technique="static who-may-insert rule with typed key provenance (interprocedural backward slice), guard analysis and must-pass-through removal on go/ssa (custom analyzer)")
+claimed["C09"] = dict(
+   text="Thin claim: static guard rules decide that proof material is stored in the partial forest only behind a successful verification of the same values (with "
+        "no other caller of the storing function than the documented unverified entry), and that the pruning primitive never receives a position that could be a "
+        "root. Truth of stored hashes through moves, minimality and provability of the cache are not decided.",
+   ref="DESIGN.md 5/C09, engine E2",
+   technique="static dominance/guard rules and who-may-call on go/ssa (custom analyzer)")
+
 pending = {}  # id -> reason, for properties whose check is not built yet
 
 not_applicable = {
